@@ -1,27 +1,373 @@
 /-
-C18 — property theorems for the provisioner model (`NGF.Model.Provisioner`).
+C18 — property theorems for the provisioner model (`NGF.Model.Provisioner`): exactly one NGF
+Deployment per Gateway of the configured class.
+
+Every theorem quantifies over ALL histories `hist : List (batch × order)`: any sequence of
+upsert/delete events of Gateways (with any gatewayClassName, so class changes are included) and
+GatewayClasses, cut into batches in any way, and any order in which Go ranges over its maps.
+Because `hist` is arbitrary, a statement about `run cfg init hist` is a statement about the state
+after every batch of every history.
+
+`run` is the code in the tree (removal loop of commit bb91ad6); `runPreFix` is the code before
+that commit, kept with its witness and `_partial` theorems as the regression detector: the check
+compares the real handler with both and reports a tree that behaves like `runPreFix`.
+
+`crashed = none` is the explicit precondition "the configured GatewayClass was in the store after
+every batch so far" (`panic_iff_gc_absent`); without it the real handler panics (`panic_reachable`).
 -/
-import NGF.Model.Provisioner
+import NGF.Proofs.ProvisionerRun
+import NGF.Proofs.ProvisionerStable
 import NGF.Generated.ProvisionerFacts
 
 namespace NGF.Prov
 
+/-! ### concrete data for witnesses and non-vacuity -/
+
 def kA : Key := ⟨['n','s','1'], ['g','w','-','a']⟩
 def kB : Key := ⟨['n','s','2'], ['g','w','-','a']⟩
+def kC : Key := ⟨['n','s','2'], ['g','w','-','c']⟩
 def cN : Str := ['n','g','i','n','x']
 def cO : Str := ['o','t','h','e','r']
 def cfg0 : Cfg := ⟨cN, [['s','t','a','t','i','c','-','m','o','d','e'], lockFlag ++ ['x']]⟩
+/-- create class + two Gateways; re-point one away; delete the other and re-create it; a conflicting class -/
+def hist0 : Hist :=
+  [([.upsertGC cN, .upsertGw kA cN, .upsertGw kB cN, .crd], [kB, kA]),
+   ([.upsertGw kA cO, .upsertGC cO], []),
+   ([.deleteGw kB, .upsertGw kB cN, .upsertGw kC cN], [kC])]
+/-- the same without the class change -/
+def hist1 : Hist :=
+  [([.upsertGC cN, .upsertGw kA cN, .upsertGw kB cO], []),
+   ([.deleteGw kA, .upsertGC cO], []),
+   ([.upsertGw kA cN, .upsertGw kC cN], [kC, kA])]
 
-/-- WITNESS (known finding C18:deployment-kept-after-class-change): after a Gateway of the class is
-re-pointed to another class its Deployment is still there. -/
-theorem class_change_away_keeps_deployment :
-    let s := run cfg0 init [([.upsertGC cN, .upsertGw kA cN], []), ([.upsertGw kA cO], [])]
-    s.crashed = none ∧ get? s.gws kA = some cO ∧ hasKey s.prov kA = true ∧ s.cluster.length = 1 := by
-  decide
+/-! ### Deployments = Gateways of the configured class (the code in the tree, commit bb91ad6) -/
 
-/-- WITNESS: deleting the configured GatewayClass panics the handler. -/
+/-- `provisions_match`, FULL STRENGTH: after every batch of every history (any batching, any map
+order) that has not panicked, a Gateway has a Deployment exactly when it is stored with the
+configured class. -/
+theorem provisions_match (cfg : Cfg) (hist : Hist) (hc : (run cfg init hist).crashed = none) (k : Key) :
+    hasKey (run cfg init hist).prov k = true ↔ get? (run cfg init hist).gws k = some cfg.gcName := by
+  rw [run_exact cfg hist hc k]
+  simp
+
+/-- Every stored Gateway of the configured class has a Deployment. -/
+theorem every_class_gateway_has_deployment (cfg : Cfg) (hist : Hist)
+    (hc : (run cfg init hist).crashed = none) (k : Key)
+    (hk : get? (run cfg init hist).gws k = some cfg.gcName) : hasKey (run cfg init hist).prov k = true :=
+  (provisions_match cfg hist hc k).mpr hk
+
+/-- Every Deployment belongs to a Gateway that is still stored — and still of the configured class. -/
+theorem every_deployment_has_gateway (cfg : Cfg) (hist : Hist)
+    (hc : (run cfg init hist).crashed = none) (k : Key)
+    (hk : hasKey (run cfg init hist).prov k = true) :
+    hasKey (run cfg init hist).gws k = true ∧ get? (run cfg init hist).gws k = some cfg.gcName :=
+  ⟨hasKey_of_get?_some ((provisions_match cfg hist hc k).mp hk), (provisions_match cfg hist hc k).mp hk⟩
+
+example : (run cfg0 init hist0).crashed = none ∧ hasKey (run cfg0 init hist0).prov kA = false ∧
+    hasKey (run cfg0 init hist0).prov kB = true ∧ (run cfg0 init hist0).cluster.length = 2 := by decide
+
+/-- The Deployments held by the API server are exactly the values of `provisions`, one per key:
+`provisions` has no duplicate Gateway and the cluster lists the same Deployments in the same order. -/
+theorem cluster_is_provisions (cfg : Cfg) (hist : Hist) :
+    (run cfg init hist).cluster = (run cfg init hist).prov.map (·.2) ∧
+    ((run cfg init hist).prov.map (·.1)).Nodup :=
+  ⟨(run_wf cfg hist).cluster_eq, (run_wf cfg hist).provKeys⟩
+
+/-- A Gateway that stays in the store with the configured class keeps the Deployment it has (no
+re-creation, no renaming). -/
+theorem deployment_retained (cfg : Cfg) (hist : Hist) (b : List Ev) (o : List Key) (k : Key)
+    (hc : (run cfg init (hist ++ [(b, o)])).crashed = none)
+    (hk : hasKey (run cfg init hist).prov k = true)
+    (hg : get? (run cfg init (hist ++ [(b, o)])).gws k = some cfg.gcName) :
+    get? (run cfg init (hist ++ [(b, o)])).prov k = get? (run cfg init hist).prov k := by
+  obtain ⟨hc0, e, hgc⟩ := runWith_snoc_ok removedGwsWithDeps hc
+  have hw := run_wf cfg hist
+  obtain ⟨_, _, g, _, _, _, r, _⟩ := stepWith_spec removedGwsWithDeps cfg _ b o hw hc0 hgc
+  obtain ⟨_, _, _, pg, _, _⟩ := pre_wf hw hc0 b
+  show get? (runWith removedGwsWithDeps cfg init (hist ++ [(b, o)])).prov k = _
+  rw [e]
+  apply r k hk
+  rw [mem_removedGwsWithDeps, pg]
+  intro hx
+  apply hx.2
+  have : get? (runWith removedGwsWithDeps cfg init (hist ++ [(b, o)])).gws k = some cfg.gcName := hg
+  rw [e, g] at this
+  exact this
+
+/-! ### names, selectors -/
+
+/-- Deployment names are pairwise distinct (the counter only grows and `%d` is injective). -/
+theorem names_unique (cfg : Cfg) (hist : Hist) : ((run cfg init hist).cluster.map (·.name)).Nodup := by
+  have h := run_wf cfg hist
+  rw [h.cluster_eq, List.map_map]
+  exact h.names
+
+/-- Every Deployment is `prepareDeployment` of an id below the counter and of its own Gateway. -/
+theorem deployment_is_prepared (cfg : Cfg) (hist : Hist) (p : Key × Dep) (hp : p ∈ (run cfg init hist).prov) :
+    ∃ i, i < (run cfg init hist).nextID ∧ p.2 = prepare cfg.tmpl i p.1 :=
+  (run_wf cfg hist).prepared p hp
+
+/-- `app` selectors are pairwise distinct and equal the pod template label. -/
+theorem selectors_unique (cfg : Cfg) (hist : Hist) :
+    ((run cfg init hist).cluster.map (·.selApp)).Nodup ∧
+    ∀ d ∈ (run cfg init hist).cluster, d.selApp = d.podApp ∧ d.selApp = d.name := by
+  have h := run_wf cfg hist
+  have hsel : ∀ d ∈ (run cfg init hist).cluster, d.selApp = d.podApp ∧ d.selApp = d.name := by
+    intro d hd
+    rw [h.cluster_eq] at hd
+    obtain ⟨p, hp, rfl⟩ := List.mem_map.mp hd
+    obtain ⟨i, _, e⟩ := h.prepared p hp
+    rw [e]; exact ⟨rfl, rfl⟩
+  refine ⟨?_, hsel⟩
+  have : (run cfg init hist).cluster.map (·.selApp) = (run cfg init hist).cluster.map (·.name) :=
+    List.map_congr_left (fun d hd => (hsel d hd).2)
+  rw [this]; exact names_unique cfg hist
+
+/-- Names are never re-used: a name in use is `nginx-gateway-<i>` for an `i` below the counter, and
+the next name handed out is different from all of them. -/
+theorem next_name_fresh (cfg : Cfg) (hist : Hist) :
+    ∀ d ∈ (run cfg init hist).cluster, d.name ≠ idName (run cfg init hist).nextID := by
+  have h := run_wf cfg hist
+  intro d hd
+  rw [h.cluster_eq] at hd
+  obtain ⟨p, hp, rfl⟩ := List.mem_map.mp hd
+  obtain ⟨i, hi, e⟩ := h.prepared p hp
+  rw [e]
+  intro e'
+  have := idName_inj (show idName i = idName _ from e')
+  omega
+
+example : (run cfg0 init hist0).cluster.map (·.name) = [idName 1, idName 3] ∧
+    (run cfg0 init hist0).nextID = 4 := by decide
+
+/-! ### configured for precisely its Gateway -/
+
+/-- Each Deployment carries `--gateway=<ns>/<name>` of its own Gateway and
+`--update-gatewayclass-status=false`; if the manifest has no `--gateway=` arg of its own
+(`TmplOK`, proved below for the manifest in the tree) it carries no other `--gateway=` arg. -/
+theorem configured_for_its_gateway (cfg : Cfg) (hist : Hist) (p : Key × Dep) (hp : p ∈ (run cfg init hist).prov) :
+    gwFlag ++ gwString p.1 ∈ p.2.args ∧ updFlag ∈ p.2.args ∧
+    (TmplOK cfg.tmpl → ∀ a ∈ p.2.args, gwFlag.isPrefixOf a = true → a = gwFlag ++ gwString p.1) := by
+  obtain ⟨i, _, e⟩ := deployment_is_prepared cfg hist p hp
+  rw [e]
+  exact ⟨gwFlag_mem_prepare _ _ _, updFlag_mem_prepare _ _ _,
+    fun ht a ha hpre => gwFlag_prefix_mem_prepare ht i p.1 a ha hpre⟩
+
+/-- … and nothing of another Gateway: the `--gateway=` flag of a different Gateway (namespaces are
+DNS labels, so contain no '/') does not occur among its args. -/
+theorem not_configured_for_another_gateway (cfg : Cfg) (hist : Hist) (ht : TmplOK cfg.tmpl) (p q : Key × Dep)
+    (hp : p ∈ (run cfg init hist).prov) (hne : p.1 ≠ q.1) (h1 : '/' ∉ p.1.ns) (h2 : '/' ∉ q.1.ns) :
+    gwFlag ++ gwString q.1 ∉ p.2.args := by
+  intro hmem
+  have := (configured_for_its_gateway cfg hist p hp).2.2 ht _ hmem
+    (List.isPrefixOf_iff_prefix.mpr (List.prefix_append _ _))
+  exact hne (gwString_inj h2 h1 (List.append_cancel_left this)).symm
+
+/-- The leader-election lock is named after the Gateway (its name only — two Gateways with one
+name in different namespaces share it, see `lock_name_shared_across_namespaces`). -/
+theorem lock_name_of_its_gateway (cfg : Cfg) (hist : Hist) (p : Key × Dep) (hp : p ∈ (run cfg init hist).prov)
+    (a : Str) (ha : a ∈ cfg.tmpl) (hl : isInfix lockNeedle a = true) : lockFlag ++ p.1.name ∈ p.2.args := by
+  obtain ⟨i, _, e⟩ := deployment_is_prepared cfg hist p hp
+  rw [e]
+  simp only [prepare, List.mem_cons, List.mem_map]
+  exact Or.inr (Or.inr ⟨a, ha, by simp [rewriteArg, hl]⟩)
+
+/-- OBSERVATION (outside the letter of C18): Gateways `ns1/gw-a` and `ns2/gw-a` get Deployments with
+the same `--leader-election-lock-name`. -/
+theorem lock_name_shared_across_namespaces :
+    let s := run cfg0 init [([.upsertGC cN, .upsertGw kA cN, .upsertGw kB cN], [])]
+    s.cluster.length = 2 ∧ ∀ d ∈ s.cluster, lockFlag ++ kA.name ∈ d.args := by decide
+
+/-! ### GatewayClass statuses -/
+
+def acceptedConds (cs : List Cond) : List Cond := cs.filter (fun c => c.type == tAccepted)
+
+/-- After every non-panicking batch: every stored GatewayClass got a status, the configured class
+is among them with the single condition Accepted=True, every other one has the single Accepted
+condition False/GatewayClassConflict. -/
+theorem gc_status_exact (cfg : Cfg) (hist : Hist) (b : List Ev) (o : List Key)
+    (hc : (run cfg init (hist ++ [(b, o)])).crashed = none) :
+    let s := run cfg init (hist ++ [(b, o)])
+    s.statuses.map (·.1) = s.gcs ∧ cfg.gcName ∈ s.gcs ∧
+    ∀ p ∈ s.statuses,
+      (p.1 = cfg.gcName → acceptedConds p.2 = [⟨tAccepted, true, tAccepted⟩]) ∧
+      (p.1 ≠ cfg.gcName → acceptedConds p.2 = [conflictCond]) := by
+  intro s
+  show s.statuses.map (·.1) = s.gcs ∧ _
+  obtain ⟨hc0, e, hgc⟩ := runWith_snoc_ok removedGwsWithDeps hc
+  have hs : s = stepWith removedGwsWithDeps cfg (run cfg init hist) b o := e
+  obtain ⟨_, _, _, g, st, _, _, _⟩ := stepWith_spec removedGwsWithDeps cfg _ b o (run_wf cfg hist) hc0 hgc
+  rw [hs, st, g]
+  refine ⟨by simp [List.map_map, Function.comp_def], hgc, ?_⟩
+  intro p hp
+  obtain ⟨n, _, rfl⟩ := List.mem_map.mp hp
+  simp only [gcConds_eq]
+  constructor
+  · intro e; simp only [e, if_true]; decide
+  · intro e; simp only [e, if_false]; decide
+
+example : (run cfg0 init hist0).statuses.map (·.1) = [cN, cO] := by decide
+
+/-! ### the panic -/
+
+/-- The only panic any history can cause is "GatewayClass must exist": creating a Deployment never
+collides with an existing name and deleting one never misses (every history, every order). -/
+theorem panic_only_gc_absent (cfg : Cfg) (hist : Hist) :
+    (run cfg init hist).crashed = none ∨ (run cfg init hist).crashed = some .gcAbsent :=
+  (run_wf cfg hist).crash
+
+/-- The handler panics on a batch exactly when the configured GatewayClass is not in the store
+after the batch's `store.update`. -/
+theorem panic_iff_gc_absent (cfg : Cfg) (hist : Hist) (b : List Ev) (o : List Key)
+    (hc : (run cfg init hist).crashed = none) :
+    (run cfg init (hist ++ [(b, o)])).crashed = none ↔ cfg.gcName ∈ (storeUpdate (run cfg init hist) b).gcs := by
+  show (runWith removedGwsWithDeps cfg init (hist ++ [(b, o)])).crashed = none ↔ _
+  simp only [runWith_append, runWith]
+  exact stepWith_crashed_iff removedGwsWithDeps (run_wf cfg hist) hc b o
+
+/-- WITNESS (known finding C18:panic-configured-gatewayclass-deleted): an admissible history —
+the configured class exists at start-up and is deleted later — panics the handler. -/
 theorem panic_reachable :
     (run cfg0 init [([.upsertGC cN, .upsertGw kA cN], []), ([.deleteGC cN], [])]).crashed = some .gcAbsent := by
   decide
+
+/-- Start-up without the configured class (precondition violated) panics on the first batch. -/
+theorem panic_at_startup_without_class :
+    (run cfg0 init [([.upsertGw kA cN, .crd], [])]).crashed = some .gcAbsent := by decide
+
+/-! ### regression detector: the removal loop before commit bb91ad6 (`runPreFix`)
+A tree whose handler matches `runPreFix` but not `run` is reported by the check as
+`C18:deployment-kept-after-class-change` with the concrete history. -/
+
+/-- For the pre-fix code `provisions_match` is FALSE. WITNESS: after a Gateway of the class is
+re-pointed to another class its Deployment is still there. -/
+theorem prefix_provisions_match_false :
+    ¬ ∀ (cfg : Cfg) (hist : Hist), (runPreFix cfg init hist).crashed = none →
+      ∀ k, hasKey (runPreFix cfg init hist).prov k = true ↔
+        get? (runPreFix cfg init hist).gws k = some cfg.gcName := by
+  intro h
+  have := h cfg0 [([.upsertGC cN, .upsertGw kA cN], []), ([.upsertGw kA cO], [])] (by decide) kA
+  revert this
+  decide
+
+/-- the two variants differ on that history and the current code gets it right -/
+theorem prefix_differs_on_class_change :
+    let hist : Hist := [([.upsertGC cN, .upsertGw kA cN], []), ([.upsertGw kA cO], [])]
+    hasKey (runPreFix cfg0 init hist).prov kA = true ∧ (runPreFix cfg0 init hist).cluster.length = 1 ∧
+    hasKey (run cfg0 init hist).prov kA = false ∧ (run cfg0 init hist).cluster = [] := by decide
+
+/-- what the pre-fix code did maintain, for every history: both inclusions except "of the class" -/
+theorem prefix_inclusions (cfg : Cfg) (hist : Hist) (hc : (runPreFix cfg init hist).crashed = none) (k : Key) :
+    (get? (runPreFix cfg init hist).gws k = some cfg.gcName → hasKey (runPreFix cfg init hist).prov k = true) ∧
+    (hasKey (runPreFix cfg init hist).prov k = true → hasKey (runPreFix cfg init hist).gws k = true) :=
+  ⟨(runPreFix_sem cfg hist hc).class_has_dep k, (runPreFix_sem cfg hist hc).dep_has_gateway k⟩
+
+/-- pre-fix `provisions_match`, partial: on histories in which no Gateway that has a Deployment is
+re-stored with another class (`noAwayHist`, decidable, evaluated along the run). -/
+theorem prefix_provisions_match_partial (cfg : Cfg) (hist : Hist) (hna : noAwayHist cfg init hist = true)
+    (hc : (runPreFix cfg init hist).crashed = none) (k : Key) :
+    hasKey (runPreFix cfg init hist).prov k = true ↔ get? (runPreFix cfg init hist).gws k = some cfg.gcName :=
+  ⟨runPreFix_match cfg hist init (wf_init cfg) (by intro k hk; simp [init] at hk) hna hc k,
+   (prefix_inclusions cfg hist hc k).1⟩
+
+/-- pre-fix `provisions_match`, partial, syntactic hypothesis: no Gateway is ever upserted with two
+different class names (`ClassStable`; deletes, re-creations and any batching allowed). -/
+theorem prefix_provisions_match_partial_class_stable (cfg : Cfg) (hist : Hist) (hs : ClassStable hist)
+    (hc : (runPreFix cfg init hist).crashed = none) (k : Key) :
+    hasKey (runPreFix cfg init hist).prov k = true ↔ get? (runPreFix cfg init hist).gws k = some cfg.gcName :=
+  prefix_provisions_match_partial cfg hist (noAwayHist_of_classStable cfg hist hs) hc k
+
+example : ClassStable hist1 := by
+  have : ∀ p ∈ upserts hist1, ∀ q ∈ upserts hist1, p.1 = q.1 → p.2 = q.2 := by decide
+  intro k c c' h1 h2
+  exact this _ h1 _ h2 rfl
+
+example : noAwayHist cfg0 init hist1 = true ∧ (runPreFix cfg0 init hist1).crashed = none ∧
+    (runPreFix cfg0 init hist1).prov.length = 2 ∧ noAwayHist cfg0 init hist0 = false := by decide
+
+/-! ### Go's map order: every order is covered by the `order` parameter -/
+
+/-- Whatever permutation of the Gateways without Deployments Go's `range` produces, passing that
+permutation as `order` makes the model create the Deployments in exactly that order. -/
+theorem every_map_order_is_modelled (cfg : Cfg) (s : State) (perm : List Key) (hp : perm.Nodup)
+    (hm : ∀ k, k ∈ perm ↔ k ∈ gwsWithoutDeps cfg s) (hg : (s.gws.map (·.1)).Nodup) :
+    arrange perm (gwsWithoutDeps cfg s) = perm :=
+  arrange_self perm _ hp hm (nodup_gwsWithoutDeps hg)
+
+/-! ### tie to the source: facts regenerated by the translator on every run -/
+
+/-- the handler runs store.update, setGatewayClassStatuses, ensureDeploymentsMatchGateways in this
+order; the four loops of `ensureDeploymentsMatchGateways` with their conditions; the panic guard -/
+theorem handler_structure_as_modelled :
+    Generated.Provisioner.handleEventBatchBody =
+      ["h.store.update(batch)", "h.setGatewayClassStatuses(ctx)", "h.ensureDeploymentsMatchGateways(ctx, logger)"] ∧
+    Generated.Provisioner.ensureLoopHeads =
+      ["for nsname, gw := range h.store.gateways", "for nsname := range h.provisions",
+       "for _, nsname := range gwsWithoutDeps", "for _, nsname := range removedGwsWithDeps"] ∧
+    Generated.Provisioner.ensureLoopBody0 =
+      ["if string(gw.Spec.GatewayClassName) != h.gcName { continue }",
+       "if _, exist := h.provisions[nsname]; exist { continue }",
+       "gwsWithoutDeps = append(gwsWithoutDeps, nsname)"] ∧
+    Generated.Provisioner.ensureLoopBody1 =
+      ["if gw, exist := h.store.gateways[nsname]; exist && string(gw.Spec.GatewayClassName) == h.gcName { continue }",
+       "removedGwsWithDeps = append(removedGwsWithDeps, nsname)"] ∧
+    Generated.Provisioner.ensureLoopBody2 =
+      ["deployment, err := prepareDeployment(h.staticModeDeploymentYAML, h.generateDeploymentID(), nsname)",
+       "if err != nil { panic(fmt.Errorf(\"failed to prepare deployment: %w\", err)) }",
+       "if err = h.k8sClient.Create(ctx, deployment); err != nil { panic(fmt.Errorf(\"failed to create deployment: %w\", err)) }",
+       "h.provisions[nsname] = deployment"] ∧
+    Generated.Provisioner.ensureLoopBody3 =
+      ["deployment := h.provisions[nsname]",
+       "if err := h.k8sClient.Delete(ctx, deployment); err != nil { panic(fmt.Errorf(\"failed to delete deployment: %w\", err)) }",
+       "delete(h.provisions, nsname)"] ∧
+    Generated.Provisioner.gcExistsStatements =
+      ["if gc.Name == h.gcName { gcExists = true } else { conds = append(conds, conditions.NewGatewayClassConflict()) }",
+       "if !gcExists { panic(fmt.Errorf(\"GatewayClass %s must exist\", h.gcName)) }"] ∧
+    Generated.Provisioner.setStatusesLastStatement = "h.statusUpdater.Update(ctx, reqs...)" ∧
+    Generated.Provisioner.condsInit = "conds := conditions.NewDefaultGatewayClassConditions()" := by
+  decide
+
+/-- the id counter starts at 1, is post-incremented, and is rendered with `nginx-gateway-%d` -/
+theorem id_generation_as_modelled :
+    Generated.Provisioner.gatewayNextIDInit = init.nextID ∧
+    Generated.Provisioner.deploymentIDFormat = String.ofList idPrefix ++ "%d" ∧
+    Generated.Provisioner.generateDeploymentIDBody =
+      ["id := h.gatewayNextID", "h.gatewayNextID++", "return fmt.Sprintf(\"nginx-gateway-%d\", id)"] := by
+  decide
+
+set_option maxRecDepth 100000 in
+/-- `prepareDeployment` sets name, selector label and pod label to the id, prepends the two flags and
+rewrites the lock-name arg, exactly as `prepare` does -/
+theorem prepare_as_modelled :
+    Generated.Provisioner.prepareAssignments =
+      ["dep.ObjectMeta.Name = id", "dep.Spec.Selector.MatchLabels[\"app\"] = id",
+       "dep.Spec.Template.ObjectMeta.Labels[\"app\"] = id",
+       "dep.Spec.Template.Spec.Containers[0].Args = finalArgs"] ∧
+    Generated.Provisioner.finalArgsInit =
+      ["\"--gateway=\" + gwNsName.String()", "\"--update-gatewayclass-status=false\""] ∧
+    Generated.Provisioner.argRewriteLoop =
+      ["for _, arg := range dep.Spec.Template.Spec.Containers[0].Args",
+       "if strings.Contains(arg, \"leader-election-lock-name\") { lockNameArg := \"--leader-election-lock-name=\" + gwNsName.Name finalArgs = append(finalArgs, lockNameArg) } else { finalArgs = append(finalArgs, arg) }"] ∧
+    String.ofList gwFlag = "--gateway=" ∧ String.ofList updFlag = "--update-gatewayclass-status=false" ∧
+    String.ofList lockNeedle = "leader-election-lock-name" ∧ String.ofList lockFlag = "--leader-election-lock-name=" := by
+  decide
+
+/-- the store accepts exactly GatewayClass, Gateway and CRD metadata, keyed by namespaced name -/
+theorem store_kinds_as_modelled :
+    Generated.Provisioner.storeUpsertKinds = ["*v1.GatewayClass", "*v1.Gateway", "*metav1.PartialObjectMetadata"] ∧
+    Generated.Provisioner.storeDeleteKinds = ["*v1.GatewayClass", "*v1.Gateway", "*metav1.PartialObjectMetadata"] ∧
+    Generated.Provisioner.storeActions =
+      ["s.gatewayClasses[client.ObjectKeyFromObject(obj)] = obj", "s.gateways[client.ObjectKeyFromObject(obj)] = obj",
+       "s.crdMetadata[client.ObjectKeyFromObject(obj)] = obj", "delete(s.gatewayClasses, e.NamespacedName)",
+       "delete(s.gateways, e.NamespacedName)", "delete(s.crdMetadata, e.NamespacedName)"] := by
+  decide
+
+set_option maxRecDepth 100000 in
+/-- the static-mode manifest in the tree has no `--gateway=` arg of its own and does have a
+lock-name arg to rewrite (hypotheses of `configured_for_its_gateway` / `lock_name_of_its_gateway`) -/
+theorem manifest_args_ok :
+    TmplOK (Generated.Provisioner.templateArgs.map String.toList) ∧
+    (Generated.Provisioner.templateArgs.map String.toList).any (isInfix lockNeedle) = true := by
+  refine ⟨tmplOK_of_all ?_, ?_⟩ <;> decide +kernel
 
 end NGF.Prov
